@@ -2640,6 +2640,7 @@ func (db *DB) checkpointWithExecutor(ctx context.Context, mode string, exec *syn
 				return false, fmt.Errorf("cannot copy wal after checkpoint: %w", err)
 			}
 			exec.applySyncResult(result)
+			verifTrace(db, "pt.ckpt.postcopied")
 
 			// The WAL may also have been restarted between the header read
 			// above and this copy, in which case the copy started over from
